@@ -435,6 +435,8 @@ DIRECTED = [
     ("same", [("F", "a", b"\x07")], (("move", "a", "b", False), ("writebytes", "b", b"\x01\x02"))),
     ("same", [], (("writebytes", "f", b"\x01"), ("writebytes", "f", b"\x02\x03"))),
     ("same", [("F", "f", b"old")], (("readbytes", "f"), ("writebytes", "f", b"new"))),
+    ("same", [("F", "f", b"ff")], (("getinfo", "f"), ("move", "f", "g", False))),
+    ("same", [("D", "d"), ("F", "d/f", b"ff")], (("getinfo", "d"), ("movedir", "d", "z", True))),
     ("same", [("F", "a", b"A")], (("copy", "a", "c", False), ("writebytes", "c", b"W"))),
     ("same", [("D", "a")], (("makedirs", "a/b/c", True), ("removedir", "a"))),
     ("siblings", [("D", "a")], (("makedir", "a/x", False), ("makedir", "a/y", False))),
@@ -558,8 +560,9 @@ UNLINKERS = {"remove", "removedir", "removetree", "move", "movedir"}
 
 def identity_matters(calls, impl):
     """the model addresses an open file / a looked-up entry by path; skip call sets in which a
-    non-atomic writebytes/readbytes — or an info reader, as long as MemoryFS.getinfo reads the entry
-    outside the lock — races with a call that can unlink or move that resource (or an ancestor)"""
+    non-atomic writebytes/readbytes — or an info reader, should the table ever show MemoryFS.getinfo
+    to read the entry outside the lock again (it is one locked block since 0b00a5c, so info readers
+    take part in the model comparison) — races with a call that can unlink or move that resource (or an ancestor)"""
     info_split = (_SHAPES.get(("MemoryFS", "getinfo")) or ["?"])[0] != "singleLocked"
     for i, a in enumerate(calls):
         if (a[0] == "writebytes" and not impl["writebytes"]) or (a[0] == "readbytes" and not impl["readbytes"]) \
